@@ -134,10 +134,10 @@ var czCorpus = append([]czCase{
 	{Pattern: `a*(?=b)`, Source: "corpus"},
 	{Pattern: `x(?:ab*|c+)?`, Source: "corpus"},
 	{Pattern: `(?>a*b*?)c`, Source: "corpus"},
-	{Pattern: `([ab]*)[bc]*c\1`, Source: "corpus"}, // D8
+	{Pattern: `([ab]*)[bc]*c\1`, Source: "corpus"},   // D8
 	{Pattern: `(?<=(?:a*ba){2})c`, Source: "corpus"}, // D40
-	{Pattern: `-+\B`, Source: "corpus"},             // KF2
-	{Pattern: `\W+\B`, Source: "corpus"},            // KF2
+	{Pattern: `-+\B`, Source: "corpus"},              // KF2
+	{Pattern: `\W+\B`, Source: "corpus"},             // KF2
 	{Pattern: `-+\Bx`, Source: "corpus"},
 }, czTable()...)
 
@@ -592,6 +592,6 @@ func c05RegisterCert(c *core.Ctx) {
 	core.RunLeg(c, core.Leg[czCase]{
 		Name: "Cz", Kind: "correspondence(certifier)+search",
 		Rule: "one third site-directed patterns (a single-character loop of every kind, greedy/lazy, bare or ending a capture / alternation branch / counted group / atomic group, followed by one to three continuation items drawn from characters, sets, \\b \\B $ \\z \\Z, nullable loops, alternations, groups, lookarounds, conditionals), two thirds patterns as leg R (the shapes the rewrites look for; right-to-left patterns included — the engine does not rewrite them, so their trees must come out equal or differ by certified tail rewrites). Each pattern is parsed with the rewrites off and on; both trees (gen.FromGoTree) go to Lean's cert (Model/AutoAtomic.lean; Props.C05.certified_find: a certified pair has the same find result from every start), with the oracle bits 'disjoint' and 'uniformly word/non-word' computed exactly from the structure of the engine's sets and Go's unicode tables on the boundary points of the tests. Buckets: trees-equal, certified (every difference is a modelled rewrite and is justified), other-rewrite:<code> (a tree difference cert does not model: prefix factoring, atomic-alternation reordering, loop-body sites …; counted, not an alarm), known-finding-KF2 (a loop over non-word runes still pending after passing \\B), not-certified:<reason>. A not-certified pattern starts a search (the pattern's directed inputs, 1500 random strings mostly over its own characters, every start offset) for an input on which the two compilations differ through the naive scan: found → impl-violation, not found → correspondence-break. Independently, the engine's final left-to-right tree must be a fixed point of Lean's function model of eliminateEndingBacktracking (endAtomicTop, Props.C05.endAtomic_sound): bucket endfix:fixed-point, else correspondence-break. non-trivial = the trees differ and were sent to Lean",
-		N: c.N(1500, 60000), Corpus: czCorpus, Gen: z.next, Check: czCheck, Batch: 500,
+		N:    c.N(1500, 60000), Corpus: czCorpus, Gen: z.next, Check: czCheck, Batch: 500,
 	})
 }
